@@ -217,18 +217,56 @@ def canon_model(o: dict) -> dict:
 
 
 DESTS = ["bytesio0", "bytesio5", "file0", "file5", "filebeyond", "append", "aplus", "wb"]
+# destinations used for external tensors only: a regular file with os.copy_file_range shimmed so that the
+# kernel-copy loop of ExternalTensor.tofile runs several short rounds / falls back to the chunk loop half-way
+EXT_DESTS = ["file5+short", "file0+exdev", "filebeyond+zero", "file5+short1"]
 PREFIX = bytes(0xA0 + i for i in range(10))
 
 
 def dest_request(kind: str) -> dict:
+    kind = kind.split("+")[0]
     img = [] if kind in ("bytesio0", "wb") else list(PREFIX)
     pos = {"bytesio0": 0, "bytesio5": 5, "file0": 0, "file5": 5, "filebeyond": 13, "append": 10, "aplus": 10, "wb": 0}[kind]
-    return {"img": img, "pos": pos, "append": kind in ("append", "aplus")}
+    return {"img": img, "pos": pos, "append": kind in ("append", "aplus"), "regular": not kind.startswith("bytesio")}
+
+
+class _CopyFileRangeShim:
+    """Replaces os.copy_file_range while one tofile() runs (the harness patches the global from outside)."""
+
+    def __init__(self, mode: str, size: int):
+        self.mode, self.calls, self.size = mode, 0, size
+        self.real = getattr(os, "copy_file_range", None)
+
+    def __enter__(self):
+        if self.real is not None:
+            os.copy_file_range = self
+        return self
+
+    def __exit__(self, *a):
+        if self.real is not None:
+            os.copy_file_range = self.real
+
+    def __call__(self, src, dst, count, offset_src=None, offset_dst=None):
+        import errno
+
+        self.calls += 1
+        if self.mode == "short":  # the kernel copies at most a third of the tensor per call
+            count = min(count, max(1, self.size // 3))
+        elif self.mode == "short1":  # one byte per call for the first calls, then everything
+            count = 1 if self.calls <= 3 else count
+        elif self.mode == "exdev" and self.calls > 1:  # cross-device error after the first (short) round
+            raise OSError(errno.EXDEV, "shim")
+        elif self.mode == "exdev":
+            count = min(count, max(1, self.size // 2))
+        elif self.mode == "zero":  # nothing copied: the chunk loop has to do everything
+            return 0
+        return self.real(src, dst, count, offset_src=offset_src, offset_dst=offset_dst)
 
 
 def run_dest(t, kind: str, workdir: str) -> dict:
     """tofile into a destination of the given kind; returns final image, position, raised."""
     raised = False
+    kind, _, shim = kind.partition("+")
     if kind.startswith("bytesio"):
         f = io.BytesIO(b"" if kind == "bytesio0" else PREFIX)
         f.seek(0 if kind == "bytesio0" else 5)
@@ -246,7 +284,15 @@ def run_dest(t, kind: str, workdir: str) -> dict:
         if kind in ("file5", "filebeyond"):
             f.seek(5 if kind == "file5" else 13)
         try:
-            t.tofile(f)
+            if shim:
+                try:
+                    size = int(t.nbytes)
+                except Exception:
+                    size = 8
+                with _CopyFileRangeShim(shim, size):
+                    t.tofile(f)
+            else:
+                t.tofile(f)
         except Exception:
             raised = True
         f.flush()
@@ -404,17 +450,37 @@ def build_reprs(ir, d, dims, xs, idx, workdir, torch_ok, item_extra=None):
     if nm in ("INT4", "INT2"):
         s8 = np.array([signed(x, bw) for x in xs], dtype=np.int8).reshape(dims)  # sign-extended storage
         add("array-int8signext", lambda: ir.Tensor(s8, dtype=d), {"k": "array", "d": code, "dims": dims, "elems": units_of(s8)})
+    whole = bw >= 8 and npdt.kind in "iufcb" and nm != "BOOL"
+
+    def mem_model(a, be, nd):
+        return {"k": "arraymem", "d": code, "dims": dims, "mem": list(np.ascontiguousarray(a).tobytes()), "be": be, "nd": nd}
+
     if npdt.itemsize > 1 and npdt.kind in "iufc":
-        # the same values in an array with an explicit non-native (big-endian) dtype: the tensor must be
-        # rejected (TypeError) or behave like the native one -- never emit bytes in memory order
+        # the same values held in memory with an explicit non-native (big-endian) dtype ('>f4', '>i8', ...)
         be = native.astype(npdt.newbyteorder(">"))
         if units_of(be) == units_of(native) and be.dtype.byteorder == ">":
-            bm = {"k": "arraybe", "d": code, "dims": dims, "elems": units_of(native)}
+            # a real ndarray: rejected (TypeError) or little-endian bytes -- never bytes in memory order
+            bm = mem_model(be, True, True)
             add("array-be", lambda: ir.Tensor(be, dtype=d), bm, "be")
             add("array-benodtype", lambda: ir.Tensor(be), bm, "be")
             add("ir.tensor(array-be)", (lambda: ir.tensor(be, dtype=d)) if idx % 2 else (lambda: ir.tensor(be)), bm, "be")
+            # behind a non-ndarray array-compatible object nothing checks the dtype: the tensor exists and
+            # must serialise the VALUES little-endian (D140)
+            wbe = _ArrayCompat(be)
+            cm = mem_model(be, True, False)
+            add("array-becompat", lambda: ir.Tensor(wbe, dtype=d), cm)
+            add("ir.tensor(array-becompat)", lambda: ir.tensor(wbe, dtype=d), cm)
     wrapped = _ArrayCompat(native)  # not an ndarray: Tensor keeps it as is and goes through __array__
-    add("array-compat", lambda: ir.Tensor(wrapped, dtype=d), {"k": "array", "d": code, "dims": dims, "elems": units_of(native)})
+    add("array-compat", lambda: ir.Tensor(wrapped, dtype=d),
+        mem_model(native, False, False) if whole else {"k": "array", "d": code, "dims": dims, "elems": units_of(native)})
+    if whole:
+        add("array-mem", lambda: ir.Tensor(native, dtype=d), mem_model(native, False, True))
+    ro = native.copy()
+    ro.setflags(write=False)
+    add("array-readonly", lambda: ir.Tensor(ro, dtype=d), {"k": "array", "d": code, "dims": dims, "elems": units_of(native)})
+    if dims and n > 1:
+        rev = np.ascontiguousarray(native[::-1])[::-1]  # same logical content, negative stride on axis 0
+        add("array-negstride", lambda: ir.Tensor(rev, dtype=d), {"k": "array", "d": code, "dims": dims, "elems": units_of(rev)})
     if len(dims) >= 2:
         # non-contiguous storage: a transposed Fortran-ordered buffer with the same logical content
         nc = np.asfortranarray(native)
@@ -436,6 +502,9 @@ def build_reprs(ir, d, dims, xs, idx, workdir, torch_ok, item_extra=None):
 
             pkt = torch.from_numpy(pk.copy())  # an array-compatible, DLPack-capable raw value
             add("packed-torch", lambda: ir.PackedTensor(pkt, d, shape=dims), {"k": "packed", "d": code, "dims": dims, "raw": list(rb)})
+        if len(rb) % 2 == 0 and len(rb) > 0:
+            pk16 = pk.view(np.uint16)  # "The value MUST be packed in an integer dtype": two packed bytes per item (D142)
+            add("packed-u16", lambda: ir.PackedTensor(pk16, d, shape=dims), {"k": "packed", "d": code, "dims": dims, "raw": list(rb)})
         pk8 = pk.view(np.int8)
         add("packed-int8", lambda: ir.PackedTensor(pk8, d, shape=ir.Shape(dims)), {"k": "packed", "d": code, "dims": dims, "raw": list(rb)})
 
@@ -601,7 +670,7 @@ def build_reprs(ir, d, dims, xs, idx, workdir, torch_ok, item_extra=None):
 
 
 def kind_of(name: str) -> str:
-    k = name.split(":")[0].replace("ir.tensor(torch-offset)", "torch").replace("ir.tensor(array-be)", "array")
+    k = name.split(":")[0].replace("ir.tensor(torch-offset)", "torch").replace("ir.tensor(array-becompat)", "array").replace("ir.tensor(array-be)", "array")
     k = k.replace("ir.tensor(array)", "array").replace("ir.tensor(list)", "array").replace("ir.tensor(torch)", "torch")
     k = k.replace("ir.tensor(proto)", "proto").replace("deserialize(external proto)", "external")
     for p in ("array", "packed", "torch"):
@@ -624,7 +693,7 @@ def oracle(ir, name, d, dims, xs, o, dests, fails, torch_ok, legal=True):
 
     if "_ctor" in o:
         if not (legal == "be" and o["_ctor"] == "TypeError"):  # a non-native byte order may be rejected
-            fail("ctor", "raised")
+            fail("ctor", "raised", ":" + name.split(">")[-1].split(":")[0])
         return
     if o["dtype"] != int(d):
         fail("dtype", "wrong")
@@ -703,6 +772,20 @@ def work_logical(item: dict) -> list:
     torch_ok = torch_available()
     with tempfile.TemporaryDirectory(prefix="c04-") as workdir:
         reprs = build_reprs(ir, d, dims, xs, idx, workdir, torch_ok, item)
+        big = bool(item.get("big"))
+        if big:  # a large tensor: a reduced set of representations, destinations that reach the chunk loops
+            keep, seen_ext, seen_lazy = [], 0, 0
+            for r in reprs:
+                nm_ = r[0]
+                if nm_ in ("array", "array-compat", "proto:raw_data", "packed", "torch", "torch-offset"):
+                    keep.append(r)
+                elif nm_.startswith("external:") and seen_ext < 3:
+                    keep.append(r)
+                    seen_ext += 1
+                elif nm_.startswith("lazy>external:") and seen_lazy < 1:
+                    keep.append(r)
+                    seen_lazy += 1
+            reprs = keep
         # ONNX reference encoder agrees with the spec-level encoder of this file
         try:
             ref = numpy_helper.from_array(arr_from_bits(spec_np(item["d"]), dims, xs), "x")
@@ -713,6 +796,11 @@ def work_logical(item: dict) -> list:
             dests = [DESTS[(idx + j) % len(DESTS)], DESTS[(idx + 3 * j + 4) % len(DESTS)]]
             if name.startswith(("external", "lazy>external")) and "append" not in dests and (idx + j) % 2 == 0:
                 dests[1] = "append"
+            is_ext = name.startswith(("external", "lazy>external", "deserialize(external", "lazy>deserialize(external"))
+            if is_ext and (idx + j) % 3 != 1:
+                dests.append(EXT_DESTS[(idx + j) % len(EXT_DESTS)])
+            if big:
+                dests = ["append", "bytesio0", "file5+short", "file0+exdev"] if is_ext else ["file5", "bytesio5"][(idx + j) % 2 :][:1]
             dests = sorted(set(dests))
             o = observe(make, dests, workdir, order=idx + j)
             fails: list = []
@@ -730,7 +818,7 @@ def work_logical(item: dict) -> list:
                     pass
             reqs = [{"m": "trepr.obs", "repr": model, "dest": dest_request(k)} for k in dests] or [{"m": "trepr.obs", "repr": model}]
             rt = None
-            if "_proto" in o and not name.startswith("lazy") and (idx + j) % 2 == 0:
+            if "_proto" in o and not name.startswith("lazy") and (idx + j) % 2 == 0 and not big:
                 # deserialize(serialize(t)) observed again (a proto- or external-backed tensor)
                 tp = o["_proto"]
                 file = model.get("file") if model["k"] == "external" else None
@@ -799,6 +887,37 @@ def gen_logical(ctx: Ctx, ir) -> list[dict]:
                 if len(xs) < n:
                     xs = xs + [0] * (n - len(xs))
                 items.append({"d": code, "dims": list(s), "xs": xs, "round": r})
+    return items
+
+
+SUBBYTE_SHAPES = [[2], [4], [6], [8], [9], [12], [15], [16], [2, 2], [4, 4], [3, 4], [2, 3, 4]]
+
+
+def gen_more(ctx: Ctx) -> list[dict]:
+    """More lengths for the 2/4-bit types (multiples of 2 and 4 and odd tails), and a few large tensors whose
+    external form goes through the 1 MiB chunk loop and several kernel-copy rounds."""
+    rng = ctx.rng
+    items = []
+    for code, (dname, bw, _n) in SPEC.items():
+        if bw < 8:
+            for r in range(ctx.pick(1, 4)):
+                for sh in SUBBYTE_SHAPES:
+                    items.append({"d": code, "dims": list(sh), "xs": [rng.randrange(1 << bw) for _ in range(_prod(sh))], "round": 100 + r})
+    mib = 1 << 20
+    bigs = [(2, mib + 5), (22, 2 * mib + 1)]  # UINT8: 1 MiB + 5 bytes; INT4: 1 MiB + 1 bytes (odd count)
+    if not ctx.quick:
+        bigs += [(1, 3 * mib // 4 + 1), (25, 4 * mib + 3), (16, 3 * mib // 2 + 7), (7, 3 * mib // 8 + 3)]  # >= 3 MiB, odd tails
+    for code, n in bigs:
+        bw = SPEC[code][1]
+        raw = rng.randbytes(n * max(1, bw // 8))
+        if bw < 8:
+            xs = [b & ((1 << bw) - 1) for b in raw]
+        else:
+            w = bw // 8
+            xs = [int.from_bytes(raw[i : i + w], "little") for i in range(0, len(raw), w)]
+            if SPEC[code][0] == "FLOAT":  # keep signalling-NaN patterns out of the large float tensor
+                xs = [x if (x & 0x7F800000) != 0x7F800000 else x & 0x807FFFFF for x in xs]
+        items.append({"d": code, "dims": [n], "xs": xs, "big": True, "round": 200})
     return items
 
 
@@ -1195,15 +1314,19 @@ def process_records(ctx: Ctx, recs: list, outs_iter) -> None:
         item, name = rec["item"], rec["name"]
         dname = SPEC[item["d"]][0]
         model_obs = [next(outs_iter) for _ in rec["reqs"]]
-        case = {"d": item["d"], "dims": item["dims"], "xs": item["xs"], "idx": item["idx"], "repr": name}
+        large = len(item["xs"]) > 1000
+        case = {"d": item["d"], "dims": item["dims"], "xs": item["xs"][:16] if large else item["xs"], "idx": item["idx"], "repr": name}
+        if large:
+            case["large"] = "elements truncated; regenerate with the same VERIF_SEED"
         ctx.case(
-            [name, item["d"], item["dims"], item["xs"], rec["dests"]],
+            [name, item["d"], item["dims"], (len(item["xs"]), item["xs"][:8], item["xs"][-8:]) if large else item["xs"], rec["dests"]],
             nontrivial=len(item["xs"]) > 0,
             sample={"dtype": dname, "dims": item["dims"], "bits": item["xs"][:4], "representation": name, "destinations": rec["dests"]},
             dtype=dname,
             representation=kind_of(name).split(">")[-1] + (":" + name.split(":")[1].split("-")[0] if name.startswith("proto:") else ""),
             lazy=name.startswith("lazy>"),
-            shape=str(item["dims"]),
+            form=name.split(">")[-1],
+            shape=str(item["dims"]) if len(item["xs"]) < 1000 else "large",
         )
         for dk in rec["dests"]:
             ctx.count(f"destination={dk}")
@@ -1269,7 +1392,8 @@ def run(ctx: Ctx) -> None:
     check_tables(ctx, ir)
     check_strings(ctx, ir)
     check_pack_functions(ctx)
-    items = gen_logical(ctx, ir)
+    items = gen_logical(ctx, ir) + gen_more(ctx)
+    items.sort(key=lambda it: not it.get("big"))  # the large tensors first (they take longest)
     run_items(ctx, items)
     ctx.exhaustive_scopes.append("all 2^w bit patterns of every element type with w <= 8 (BOOL: 0/1), through every representation kind")
     # edge / illegal stream: model vs implementation only
